@@ -62,7 +62,13 @@ def random_history(sig, api, rnd, length, n_per_type, p_close=0.12, p_until=0.10
                 t = rnd.choice(ts)
                 a, b = rnd.sample(range(nh[t]), 2)
                 steps.append({"op": "equate", "ty": t, "a": a, "b": b})
-        elif r < p_close + p_until + 0.12 + enum_prob and api["new_enum"]:
+        elif r < p_close + p_until + 0.17 and api["new"] and steps[-1]["op"] != "new":
+            # an element created late (possibly right after a close)
+            t = rnd.choice(api["new"])
+            if nh[t] < 5:
+                steps.append({"op": "new", "ty": t})
+                nh[t] += 1
+        elif r < p_close + p_until + 0.17 + enum_prob and api["new_enum"]:
             t = rnd.choice(api["new_enum"])
             c = rnd.choice(sig.enums[t])
             args = rand_args(rnd, sig, nh, sig.rels[c]["cols"][:-1])
@@ -111,7 +117,7 @@ def family_c03(sig, api, rnd, n_per_type, nfacts, nvariants):
     facts = random_facts(sig, api, rnd, nh, nfacts)
     fin = {"op": "close", "tag": "fam:C03"}
     members = [pre + facts + [dict(fin)] + [{"op": "close", "tag": "reclose"}]]
-    for _ in range(nvariants):
+    for k in range(nvariants):
         f = list(facts)
         rnd.shuffle(f)
         body = []
@@ -121,8 +127,42 @@ def family_c03(sig, api, rnd, n_per_type, nfacts, nvariants):
                 body.append(dict(st))          # redundant re-assertion
             if rnd.random() < 0.3:
                 body.append({"op": "close"})   # interleaved close
-        members.append(pre + body + [dict(fin)])
+        if k % 2 == 1:
+            # element creation order: every element is created only when first needed (per type the
+            # order of creation - and with it the meaning of the handles - stays the same); elements
+            # that no fact mentions are created at the very end, after a close
+            members.append(lazy_creation(sig, pre, body, rnd) + [dict(fin)])
+        else:
+            members.append(pre + body + [dict(fin)])
     return members
+
+
+def lazy_creation(sig, pre, body, rnd):
+    queue = {}
+    for st in pre:
+        if st["op"] != "new":
+            return pre + body
+        queue.setdefault(st["ty"], []).append(st)
+    made = {t: 0 for t in queue}
+    out = []
+
+    def need(t, k):
+        while made.get(t, 0) < k and queue.get(t):
+            out.append(queue[t].pop(0))
+            made[t] += 1
+    for st in body:
+        if st["op"] == "insert":
+            for c, a in zip(sig.rels[st["rel"]]["cols"], st["args"]):
+                need(c, a + 1)
+        elif st["op"] == "equate":
+            need(st["ty"], max(st["a"], st["b"]) + 1)
+        out.append(st)
+    rest = [st for t in sorted(queue) for st in queue[t]]
+    if rest:
+        if out and out[-1]["op"] != "close" and rnd.random() < 0.7:
+            out.append({"op": "close"})
+        out += rest
+    return out
 
 
 def family_c07(sig, api, rnd, n_per_type, nfacts, max_stop):
@@ -157,9 +197,10 @@ def exhaustive_bodies(theory, sig, api, pre_n, max_ops, max_asserts, max_stop, m
         "GDefinable": mcgen.sset(mcgen.s(r) for r in (api["define"] if with_define else [])),
         "GEquateTypes": mcgen.sset(mcgen.s(t) for t in (sig.types if with_equate else [])),
         "GPre": mcgen.fun((mcgen.s(t), str(nh[t])) for t in sig.types),
+        "GNewTypes": mcgen.sset(mcgen.s(t) for t in api["new"] if not sig.models),
     }
     cfg = ["SPECIFICATION Spec", "CONSTANTS", "  Types <- GTypes", "  Arity <- GArity", "  Insertable <- GInsertable",
-           "  Definable <- GDefinable", "  EquateTypes <- GEquateTypes", "  Pre <- GPre", f"  MaxOps = {max_ops}",
+           "  Definable <- GDefinable", "  EquateTypes <- GEquateTypes", "  Pre <- GPre", "  NewTypes <- GNewTypes", f"  MaxOps = {max_ops}",
            f"  MaxAsserts = {max_asserts}", f"  MaxStop = {max_stop}", f"  MaxHandles = {max_handles}",
            "INVARIANTS TypeOK Emit", "CHECK_DEADLOCK FALSE"]
     mod = "MCGen_" + theory
@@ -175,6 +216,8 @@ def exhaustive_bodies(theory, sig, api, pre_n, max_ops, max_asserts, max_stop, m
                 steps.append({"op": "define", "rel": o["rel"], "args": list(o["args"])})
             elif o["op"] == "equate":
                 steps.append({"op": "equate", "ty": o["ty"], "a": o["a"], "b": o["b"]})
+            elif o["op"] == "new":
+                steps.append({"op": "new", "ty": o["ty"]})
             elif o["op"] == "close":
                 steps.append({"op": "close"})
             else:
